@@ -15,13 +15,13 @@ TB = ("Trusted base: Lean 4.33.0 kernel; axioms propext, Quot.sound, Classical.c
 
 # id -> (theorem-backed part, correspondence/search-backed part)
 TEXT = {
-    "C01": ("(theorems pending: part of the master invariant) registry frame of the resolver (C03_invoke_registry) is proved",
+    "C01": ("resolution rule of paramSingle.Build proved for every state and outcome: C01_decorator_wins (nearest decorator not on the stack is called, its stored output is delivered, never a provider's value), C01_decorated_cache, C01_cached_value and C01_provided (nearest scope with a cached value or providers, located by findProviders_value/_provs; zero only for optional), C01_nothing; cache justification (cached values are outputs of registered providers) is still correspondence-only",
             "wiring of every argument of every executed function compared with the model on every explored program (projection: verdict class + enter events with provenance tokens)"),
     "C02": ("flag discipline of the whole resolver proved by induction over its mutual recursion (engine_flags): C02_once (per resolver call: at most one successful execution per constructor and per decorator, none for nodes already built or on the stack, and a successful one marks the node built), C02_built_stays_built, C02_cached, C02_noreentry, C02_deco_cached; the lift to whole histories (invariant of the API step) is the next proof step",
             "enter/exit skeleton compared with the model; trace predicate: successful exits per function <= accepted registrations, no nested entry"),
     "C03": ("C03_passive (Scope/Provide/Decorate/Visualize/String report no event, any state) and C03_invoke_registry (the resolver never changes the registry) are proved for the model",
             "execution order and closure (only the needed functions run, dependencies complete first) compared with the model on every explored program; trace predicate pred_c03"),
-    "C04": ("(theorems pending)", "verdict class, missing keys, zero-valued optional arguments compared with the model"),
+    "C04": ("C04_required_missing, C04_optional_missing, C04_shallow, C04_shallow_single, C04_ctor_not_run (a constructor with a missing direct dependency is not entered and logs nothing), C04_optional_absorbs_only_missing are proved", "verdict class, missing keys, zero-valued optional arguments compared with the model"),
     "C05": ("graph half proved at full strength for every graph size: C05_dfs_sound, C05_path, C05_dfs_total, C05_dfs_complete (Dfs.isAcyclic = internal/graph.IsAcyclic); the on-stack guard (C20_onstack) is proved to stop re-entry",
             "K-graph: IsAcyclic via hook vs model, exhaustive on all digraphs with <= 4 nodes + random graphs, each answer also judged on its own; container level: cycle verdicts, cycle lengths, process survival compared with the model under a cycle-heavy generator profile"),
     "C06": ("(theorems pending: C06_unchanged)", "metamorphic twins on the real library: history with / without each rejected Provide/Decorate followed by a probe sweep must behave identically; full traces compared with the model"),
@@ -29,9 +29,9 @@ TEXT = {
             "trace predicate: no token of a failed execution is ever delivered, root cause of the demanding Invoke is the first failure; traces compared with the model under a fault-heavy profile"),
     "C08": ("(theorems pending)", "wiring across scope trees (up to 7 scopes, Export) compared with the model"),
     "C09": ("(theorems pending)", "wiring + acceptance of registrations compared with the model under a profile rich in names, groups and As"),
-    "C10": ("(theorems pending)", "multisets received by hard group parameters compared with the model"),
-    "C11": ("(theorems pending)", "multisets received by soft group parameters and the execution skeleton compared with the model"),
-    "C12": ("C20_deco_cached (a decorator that ran is not run again) proved; wiring theorems pending",
+    "C10": ("C10_members (an undecorated hard group parameter receives exactly the concatenation of the members committed in the scopes on the path to the root; shape lemma buildGroup_undecorated), C10_failure_is_group_failure are proved", "multisets received by hard group parameters compared with the model"),
+    "C11": ("C11_silent (building an undecorated soft group changes no state and returns exactly the members already committed on the path), C11_soft_last are proved", "multisets received by soft group parameters and the execution skeleton compared with the model"),
+    "C12": ("C12_consumer, C12_self_skipped, C12_local, C12_once, C12_one (an accepted Decorate only fills keys undecorated in that scope; a rejected one changes graph holders only) are proved; C20_deco_cached",
             "wiring with decorators at several scope levels compared with the model"),
     "C13": ("all classification statements proved for every error value the model can build: C13_root_is_leaf, C13_errorsIs_root, C13_user_identity, C13_dig, C13_panic_root, C13_cycle_iff, C13_wrap_*, C13_ctor_outcome, C13_deco_outcome",
             "K-error: chains of wrapper kinds, RootCause, errors.Is, IsCycleDetected, CanVisualizeError of every returned error and callback error compared with the model; trace predicate pred_c13 judges the implementation's own classification"),
